@@ -1,7 +1,7 @@
 (* C08: today's behaviour that violates the property, on the `_current` variant of the model.
    eval_query_current mirrors FillTransform: fill(previous) of a descending query is computed in iteration order. *)
 From Coq Require Import ZArith List Bool.
-From OG Require Import C08.Model C08.Proofs.
+From OG Require Import C08.Model C08.Proofs C08.Rpn.
 Import ListNotations.
 Open Scope Z_scope.
 
@@ -45,3 +45,10 @@ Proof.
   vm_compute. discriminate.
 Qed.
 Print Assumptions C08_fill_previous_lastrow_current_refuted.
+
+(* column-store row filter (finding C08-columnstore-rowfilter-operand-order): with pending comparisons and results on two
+   stacks and the dispatch on the number of pending comparisons, A AND (B OR (C OR D)) is not the value of the tree *)
+Theorem C08_rpn_two_stack_refuted : exists (holds : nat -> bool) (t : @ctree nat),
+  run2 holds (rpn t) <> Some ([], [teval holds t]).
+Proof. exact rpn_two_stack_refuted. Qed.
+Print Assumptions C08_rpn_two_stack_refuted.
